@@ -5,6 +5,7 @@
 
 #include "../engine/runner.hpp"
 #include "../gen/values.hpp"
+#include "../gen/history_run.hpp"
 #include "../lib/build.hpp"
 #include "../lib/observe.hpp"
 #include "../ref/json_ref.hpp"
@@ -194,6 +195,29 @@ static void add_binext(Val& v, cs::Src& s) {
 
 static void run_case(cs::Src& s, cs::Ctx& ctx) {
   ctx.evaluations++;
+  if (s.chance(1, 5)) {
+    // a document reached through a model-checked API history
+    hist::Options ho;
+    ho.ndocs = 1;
+    ho.allow_alias_ops = false;
+    ho.doc_level_ops = false;
+    hist::Runner r(s, ctx, ho);
+    r.init();
+    size_t nops = 5 + (size_t)s.below(25);
+    for (size_t i = 0; i < nops; i++) r.step();
+    Val hv = r.m.docs[0].root;
+    bool plain_raw = false;  // serialized() text is not MessagePack: only bin/ext raws are judged here
+    hv.walk([&](const Val& n) {
+      if (n.k == Val::Raw && (n.s.empty() || (unsigned char)n.s[0] != 0xC4)) plain_raw = true;
+    });
+    ctx.current_rendering = "history:" + r.log;
+    if (!plain_raw) check_document(ctx, &s, *r.worlds[0]->docs[0], true);
+    r.finish();
+    ctx.label("doc-from-history");
+    if (!plain_raw && near_boundary(hv)) ctx.nontrivial_str(ref::render(hv, 3000));
+    else ctx.trivial++;
+    return;
+  }
   gen::Opts o;
   o.utf8_only = false;
   o.nonfinite = true;
